@@ -267,6 +267,9 @@ def oriented_bounds(obj, angle_digits=1, ordered=True, normal=None, coplanar_tol
         edge_vectors = edge_vectors[edge_nonzero] / edge_norm[edge_nonzero].reshape(
             (-1, 1)
         )
+        # a degenerate hull can have no silhouette in this direction
+        if len(edge_vectors) == 0:
+            continue
         # create a set of perpendicular vectors
         perp_vectors = np.fliplr(edge_vectors) * [-1.0, 1.0]
 
@@ -286,6 +289,15 @@ def oriented_bounds(obj, angle_digits=1, ordered=True, normal=None, coplanar_tol
         if volume < min_volume:
             min_volume = volume
             min_2D = to_2D
+
+    if min_2D is None:
+        # no direction could be evaluated: qhull can return a flat
+        # hull for coplanar points rather than raising an error
+        if hasattr(obj, "vertices"):
+            points = obj.vertices.view(np.ndarray)
+        else:
+            points = np.asanyarray(obj)
+        return oriented_bounds_coplanar(points)
 
     # we know the minimum volume transform which should be the expensive
     # part so now we need to do the bookkeeping to find the box
